@@ -618,6 +618,7 @@ def run_checks(pid, tier, seed, replay, gen_cases, props, rule, group_check=Fals
         'values: None, ints, bools, decimal numerals (canonical / blank padded), seven words; value_type in {None,int,str,bool}',
         'validators are harness-defined subclasses of pedantic.Validator (deterministic, journal their input)',
         'functions without *args and without positional-only parameters; exception messages are not compared',
+        'self is passed as the implicit first positional argument of a bound method only (never by keyword, never a Parameter name)',
         'Flask is installed (IS_FLASK_INSTALLED); the strict-JSON clause at the end of _wrapper_content is compared with the model only',
     ]
     return ck.finish(
